@@ -363,4 +363,6 @@ def run(model, tier):
                               'rho_p_u_rarefaction', 'star_velocity', 'shock', 'rarefaction'}, min_calls=6,
                      why="one solver computes this wave with the other gas's data while the sibling solver uses the matching "
                          "side, so the ideal-gas and general-EOS routes disagree whenever the two states differ in that component")
+    from . import c14_modes
+    c14_modes.rod_mirror(model, res)
     return res
